@@ -179,9 +179,12 @@ def run(out):
             raise common.MachineryError('spec self-test: deviation %s should violate %s, TLC says %r' % (d, expect[d], r.violated))
         out.add_tlc('selftest-deviation-' + d, r, violated_as_expected=r.violated)
 
-    insts = [('histories-exhaustive', dict(constants={'MaxCalls': 2 if quick else 3, 'Deviations': set()})),
+    insts = [('histories-exhaustive', dict(constants={'MaxCalls': 2, 'Deviations': set()})),
              ('histories-simulated', dict(constants={'MaxCalls': 6 if quick else 10, 'Deviations': set()},
                                           simulate=3 if quick else 40, depth=40 if quick else 70, seed=out.seed))]
+    if not quick:
+        # all histories of three calls are enumerated by TLC (the invariants are checked on all of them); a deterministic sample is executed
+        insts.insert(1, ('histories-3-calls', dict(constants={'MaxCalls': 3, 'Deviations': set()})))
     hists = {}
     for name, kw in insts:
         r = common.run_tlc('Session', timeout=3000, heap='8g', **kw)
@@ -194,11 +197,13 @@ def run(out):
         r.tagged.clear()                # the census walks every object of the interpreter: keep the heap small before forking workers
         if r.mode == 'simulate':
             new_h = set(common.sample(sorted(new_h), 700 if quick else 30000, out.seed))
+        elif name == 'histories-3-calls':
+            new_h = set(common.sample(sorted(new_h), 90000, out.seed))
         for h in new_h:
             hists.setdefault(h, None)
         del new_h
         out.add_tlc(name, r, histories=len(hists) - n0)
-        if r.mode == 'bfs':
+        if r.mode == 'bfs' and name == 'histories-exhaustive':
             out.exhaustive = r.exhaustive
     hl = sorted(hists)
     del hists
